@@ -105,6 +105,7 @@ theorem run_length (n : Nat) (buf : List (Option α)) (i : Nat) (l : List α) : 
 theorem last_den {m : IM σ α} {cost : σ → Nat} {s : σ} {L : List (α × Nat)} {e : Nat} (n : Nat)
     (h : Den m cost s L e) :
     ∃ F, ∀ fuel, F ≤ fuel → (last m (n : Int) fuel s).1 = .ok ((Seq.lastN n (L.map Prod.fst)).map some) := by
+  have _tie := Skeleton.Tie.itLast
   obtain ⟨F, hF⟩ := lastLoop_den n h
   refine ⟨F, fun fuel hf => ?_⟩
   have h1 := hF fuel hf (List.replicate n none) 0
